@@ -169,7 +169,7 @@ def m_check_dump(nv, n, vc, th, notes):
 class Check(DiffCheck):
     id = 'C05'
     # lockset engine (lib/lockset.py): die/standby/dequeue blocks happen under the locks the life-cycle model assumes
-    lockset_rules = {12, 13, 14, 15, 16, 17}
+    lockset_rules = {12, 13, 14, 15, 16, 17, 25}
     coq_dirs = ['Base', 'E3', 'C05']
     coq_targets = ['C05/C05_AsymProofs.vo', 'C05/C05_AsymTSO.vo', 'C05/C05_Proofs.vo', 'C05/C05_Proofs2.vo', 'C05/C05_Proofs3.vo', 'C05/C05_Proofs4.vo', 'C05/C05_Proofs5.vo', 'C05/C05_PoolProofs.vo', 'C05/C05_E4Proofs.vo', 'C05/C05_FiniProofs.vo']
     properties_v = 'C05/C05_Properties.v'
